@@ -63,6 +63,7 @@ type Ctx struct {
 	identMemo     map[*ssa.Function]int
 	inlineHelpers bool
 	ftMemo        map[*types.Named][]*ssa.Function
+	boolOrigins   map[string]boolOrigin          // calleeEnvV: test results handed to callees as boolean arguments, by path
 	nameHandedOn  bool                           // calleeEnvV: a call result the callee hands on is named after the caller-side call value
 	phiEdgeLive   func(phi *ssa.Phi, i int) bool // optional: restricts φ edges when rendering canonical forms
 	gmemo         map[string]int
